@@ -35,7 +35,7 @@ def main():
             sid = "%d.%d" % (i, j)
             scen.append({"kind": "index", "id": sid, "sites": sites, "mode": t["mode"]})
             expect[sid] = t
-    recs, crashed = pv.run_driver_resilient(exe, scen, timeout=900)
+    recs, crashed = pv.run_driver_resilient(exe, scen, timeout=900, scen_timeout=60)
     byid = {r["id"]: r for r in recs if r.get("e") == "Index"}
     good = []
     for s in scen:
@@ -98,7 +98,7 @@ def main():
             s["queries"] = [{"q": "index"}]
             sc2.append(s)
             plan.append((m, vn, mv, mp_, beta))
-    recs, crashed = pv.run_driver_resilient(exe, sc2, timeout=900)
+    recs, crashed = pv.run_driver_resilient(exe, sc2, timeout=900, scen_timeout=60)
     tabs = {r["id"]: r.get("tab") for r in recs if r.get("e") == "Q"}
     sc3, meta = [], {}
     for (m, vn, mv, mp_, beta) in plan:
